@@ -161,6 +161,10 @@ class Executor(object):
     # ------------------------------------------------------------------ globals
     def _layout_globals(self):
         m = self.m
+        cached = getattr(m, '_llsym_layout', None)     # immutable: shared by all runs of a module
+        if cached is not None:
+            (self.gaddr, self.objects, self.init, self.faddr, self.fname, self._obj_bases) = cached
+            return
         self.gaddr = {}
         self.objects = []          # sorted (base, size, name, writable)
         self.init = {}             # addr -> byte of every initialised global
@@ -183,6 +187,7 @@ class Executor(object):
             if g.external:
                 continue           # no bytes: any access is an error (the harness must define it)
             self._init_const(self.gaddr[name], g.ty, g.init)
+        m._llsym_layout = (self.gaddr, self.objects, self.init, self.faddr, self.fname, self._obj_bases)
 
     def _init_const(self, addr, ty, c):
         m = self.m
@@ -601,6 +606,7 @@ class Executor(object):
             return hit
         s = self._tactic.solver()
         s.set('timeout', self.query_timeout_ms)
+        s.set('random_seed', self.seed)
         s.add(*rel)
         if extra is not None:
             s.add(extra)
